@@ -33,7 +33,7 @@ PROFILES = {
     "C16": {"schemas": sorted(["basic", "list", "title", "headbody", "iso", "table", "strict"]),
             "byz": (0.0, 0.0), "faults": 0.4, "merge": True,
             "mix": {"type": 14, "type_run": 10, "backspace": 10, "delete": 5, "paste": 8, "add_mark": 10,
-                    "remove_mark": 8, "mark_run": 10, "seam_pair": 8, "insert_node": 3, "split": 2, "set_block_type": 2, "raw_step": 4,
+                    "remove_mark": 8, "mark_run": 10, "seam_pair": 8, "insert_node": 3, "split": 4, "join": 7, "set_block_type": 2, "raw_step": 4,
                     "paste_range": 3}},
     "C17": {"schemas": sorted(["basic", "list", "title", "headbody", "iso", "table", "strict"]),
             "byz": (0.0, 0.0), "faults": 0.3, "mix": None, "probe17": True, "spread": True},
